@@ -69,7 +69,7 @@ func (r *recorder) hook(pt string, a, b int) {
 func (r *recorder) install() func() []*gLog {
 	verifhook.Hook = r.hook
 	return func() []*gLog {
-		verifhook.Hook = nil
+		// (the hook stays installed: goroutines of the finished call may still be running; a new recorder replaces it)
 		r.mu.Lock()
 		defer r.mu.Unlock()
 		return r.order
